@@ -126,6 +126,7 @@ func (x *Exec) analyze() (err error) {
 		x.harvestClause(henv, en.Expr)
 	}
 	x.cover(st, x.key+"#cover.pre", "cover", con.Safety, x.posOf(x.fn.Pos()), "precondition and type invariants are satisfiable")
+	x.structural()
 	st.frames = nil
 	outs := x.runFuncTop(st, args, entryMem)
 	if len(outs) == 0 {
@@ -336,4 +337,112 @@ func (x *Exec) harvestClause(env *CEnv, e *CExpr) {
 		}
 	}
 	walk(e)
+}
+
+// structural discharges the clauses that are decided on the SSA text alone.
+func (x *Exec) structural() {
+	con := x.con
+	pos := x.posOf(x.fn.Pos())
+	if con.NoGlobals != nil {
+		seen := map[*ssa.Function]bool{}
+		var bad []string
+		var walk func(fn *ssa.Function)
+		walk = func(fn *ssa.Function) {
+			if seen[fn] || len(fn.Blocks) == 0 {
+				return
+			}
+			seen[fn] = true
+			for _, b := range fn.Blocks {
+				for _, in := range b.Instrs {
+					for _, op := range in.Operands(nil) {
+						if g, ok := (*op).(*ssa.Global); ok && g.Pkg != nil && strings.HasPrefix(g.Pkg.Pkg.Path(), modPrefix) {
+							bad = append(bad, g.Name()+" in "+fnKey(fn))
+						}
+					}
+					if c, ok := in.(ssa.CallInstruction); ok {
+						if callee := c.Common().StaticCallee(); callee != nil && callee.Pkg != nil && strings.HasPrefix(callee.Pkg.Pkg.Path(), modPrefix) {
+							if cc, _ := x.contractFor(callee); cc == nil || cc.Inline {
+								walk(callee)
+							}
+						}
+					}
+				}
+			}
+		}
+		walk(x.fn)
+		goal := "true"
+		text := "the function and the helpers it inlines reference no package-level variable of the module"
+		if len(bad) > 0 {
+			goal = "false"
+			text += " (references: " + strings.Join(bad, ", ") + ")"
+		}
+		x.oblige(&State{x: x}, x.key+"#noglobals", "frame", con.NoGlobals, goal, pos, text)
+	}
+	if d := con.Delegates; d != nil {
+		ok, why := x.checkDelegates(d)
+		goal := "true"
+		if !ok {
+			goal = "false"
+		}
+		x.oblige(&State{x: x}, x.key+"#delegates", "frame", d.Tags, goal, pos, "forwards its parameters unchanged to "+d.Callee+" on "+d.Global+" and returns its results"+why)
+	}
+}
+
+func (x *Exec) checkDelegates(d *DelegateSpec) (bool, string) {
+	fn := x.fn
+	if len(fn.Blocks) != 1 {
+		return false, " (body is not a single block)"
+	}
+	var call *ssa.Call
+	var ret *ssa.Return
+	for _, in := range fn.Blocks[0].Instrs {
+		switch i := in.(type) {
+		case *ssa.Call:
+			if call != nil {
+				return false, " (more than one call)"
+			}
+			call = i
+		case *ssa.Return:
+			ret = i
+		case *ssa.Extract, *ssa.DebugRef:
+		default:
+			return false, fmt.Sprintf(" (unexpected instruction %T)", in)
+		}
+	}
+	if call == nil || ret == nil {
+		return false, " (no call or no return)"
+	}
+	callee := call.Common().StaticCallee()
+	if callee == nil || fnKey(callee) != d.Callee {
+		return false, " (calls something else)"
+	}
+	args := call.Common().Args
+	if len(args) != len(fn.Params)+1 {
+		return false, " (argument count)"
+	}
+	if g, ok := args[0].(*ssa.Global); !ok || g.Name() != d.Global {
+		return false, " (receiver is not " + d.Global + ")"
+	}
+	for i, p := range fn.Params {
+		if args[i+1] != ssa.Value(p) {
+			return false, fmt.Sprintf(" (argument %d is not parameter %s)", i, p.Name())
+		}
+	}
+	n := fn.Signature.Results().Len()
+	if len(ret.Results) != n {
+		return false, " (result count)"
+	}
+	for i, r := range ret.Results {
+		if n == 1 {
+			if r != ssa.Value(call) {
+				return false, " (returns something else)"
+			}
+			continue
+		}
+		ex, ok := r.(*ssa.Extract)
+		if !ok || ex.Tuple != ssa.Value(call) || ex.Index != i {
+			return false, " (returns something else)"
+		}
+	}
+	return true, ""
 }
